@@ -44,8 +44,16 @@ class ExprMixin:
             return self.coerce(SV(sv.ty.t, T.opt_val(sv.ty, sv.t), cls=sv.cls), ty, st, node)
         if isinstance(ty, T.Opt):
             if sv.ty == T.NoneT: return SV(ty, T.opt_none(ty))
-            return SV(ty, T.opt_some(ty, self.coerce(sv, ty.t).t), cls=sv.cls)
+            return SV(ty, T.opt_some(ty, self.coerce(sv, ty.t, st, node).t), cls=sv.cls)
         if ty == T.Real and sv.ty == T.Int: return SV(T.Real, z3.ToReal(sv.t))
+        if sv.ty == T.Card and ty in (T.Int, T.Str, T.Real):
+            want_int = ty != T.Str
+            if st is not None and not self.spec:
+                self.oblige(st, T.card_is_int(sv.t) if want_int else z3.Not(T.card_is_int(sv.t)), "cardinality-is-%s-here" % ("int" if want_int else "str"), node)
+                st.assume(T.card_is_int(sv.t) if want_int else z3.Not(T.card_is_int(sv.t)))
+            elif not self.spec: raise VCError("cannot coerce %s to %s" % (sv.ty, ty))
+            if want_int: return self.coerce(SV(T.Int, T.card_n(sv.t)), ty)
+            return self.to_str(st, sv)
         if ty == T.Card:
             if sv.ty == T.Int: return SV(ty, T.card_int(sv.t))
             if is_pystr(sv) and sv.t.as_string() in T.Card.strs: return SV(ty, T.card_str(sv.t.as_string()))
@@ -155,6 +163,15 @@ class ExprMixin:
             sch = R.SCHEMAS[ty.family]
             c = self.hread(st, ty.family, "__class__", sv.t)
             st.assume(z3.And(c >= 0, c < len(sch.classes)))
+            if sch.invariant and not getattr(self, "_in_inv", False):
+                self._in_inv = True
+                try:
+                    tmp = st.fork(); tmp.env = {"self": SV(ty, sv.t)}
+                    for inv in sch.invariant:
+                        st.assume(self.spec_eval(inv, tmp, None))
+                    self.note_assumption("object invariant of %s assumed for every object read: %s" % (ty.family, "; ".join(sch.invariant)))
+                finally:
+                    self._in_inv = False
         elif isinstance(ty, T.List):
             st.assume(T.list_len(ty, sv.t) >= 0)
         elif isinstance(ty, T.Opt) and isinstance(ty.t, (T.Obj, T.List)):
